@@ -239,4 +239,171 @@ theorem lookup_cable (t : Torus) (i j : Nat) (v : TLink × TLink) (hi : i < t.to
           simp only [nodePosLb_final, hlim, if_true]; omega
         · simp at he
 
+/-! ### the neighbour formula of `create_torus_links` vs the `next_node` formulas of `get_local_route` -/
+
+/-- `rank - (d - 1) * P` (create_torus_links) = `cur + P - P * d` (get_local_route), also when both truncate -/
+theorem nb_up (cur P d : Nat) (hd : 0 < d) : cur - (d - 1) * P = cur + P - P * d := by
+  have h1 : (d - 1) * P = P * d - P := by rw [Nat.sub_mul, Nat.one_mul, Nat.mul_comm]
+  have h2 : P ≤ P * d := Nat.le_mul_of_pos_right P hd
+  omega
+
+/-- going left from `cur` along a dimension (radix `P`, size `d`) reaches a node whose declared neighbour is `cur` -/
+theorem nb_down (cur P d : Nat) (hP : 0 < P) (hd : 0 < d) :
+    let next := if (cur / P) % d = 0 then cur + P * d - P else cur - P
+    (if (next / P) % d = d - 1 then next - (d - 1) * P else next + P) = cur := by
+  intro next
+  by_cases h0 : (cur / P) % d = 0
+  · have hn : next = cur + P * (d - 1) := by
+      have h2 : P ≤ P * d := Nat.le_mul_of_pos_right P hd
+      have h1 : P * (d - 1) = P * d - P := by rw [Nat.mul_sub, Nat.mul_one]
+      simp only [next, h0, if_true]; omega
+    have hq : (next / P) % d = d - 1 := by
+      rw [hn, Nat.add_mul_div_left _ _ hP, Nat.add_mod, h0, Nat.zero_add, Nat.mod_mod,
+        Nat.mod_eq_of_lt (by omega : d - 1 < d)]
+    rw [if_pos hq, hn, Nat.mul_comm (d - 1) P]; omega
+  · have hq1 : 1 ≤ cur / P := by
+      rcases Nat.eq_zero_or_pos (cur / P) with h | h
+      · rw [h] at h0; simp at h0
+      · exact h
+    have hge : P ≤ cur := by
+      have := Nat.mul_le_mul_left P hq1
+      have := Nat.mul_div_le cur P
+      omega
+    have hn : next = cur - P := by simp only [next, h0, if_false]
+    have hdiv : (cur - P) / P = cur / P - 1 := by
+      have e := Nat.add_div_right (cur - P) hP
+      rw [Nat.sub_add_cancel hge] at e
+      omega
+    have hq : ¬ ((next / P) % d = d - 1) := by
+      rw [hn, hdiv]
+      intro e
+      apply h0
+      have h3 := Nat.mod_add_div (cur / P - 1) d
+      rw [e] at h3
+      have h4 : cur / P = d * ((cur / P - 1) / d + 1) := by rw [Nat.mul_add, Nat.mul_one]; omega
+      rw [h4, Nat.mul_mod_right]
+    rw [if_neg hq, hn]; omega
+
+theorem scan_facts (cur dst : Nat) : ∀ (tri : List (Nat × Nat × Nat)) (j P : Nat) (h : Hop),
+    scan cur dst j P tri = some h → h.cur = cur ∧ j ≤ h.dim ∧ h.dim < j + tri.length := by
+  intro tri
+  induction tri with
+  | nil => intro j P h hs; simp [scan] at hs
+  | cons x rest ih =>
+    obtain ⟨d, m, t⟩ := x
+    intro j P h hs
+    simp only [scan] at hs
+    split at hs
+    · split at hs <;> (injection hs with hs; subst hs; simp)
+    · have := ih (j + 1) (P * d) h hs
+      simp only [List.length_cons]; omega
+
+/-- a hop to the RIGHT uses `get_uplink_from(node_pos_with_loopback_limiter(cur) + j)`: the UP half of the link that
+`cur` declared towards its neighbour in dimension `j`, which is `next` -/
+theorem scan_up_link (cur dst pos : Nat) : ∀ (tri : List (Nat × Nat × Nat)) (j P : Nat) (h : Hop),
+    (∀ x ∈ tri, 0 < x.1) → scan cur dst j P tri = some h → h.up = true →
+    Entries.at (torusLinks cur cur pos j P (triDims tri)) (pos + h.dim)
+      = some (TLink.cable cur h.next true, TLink.cable cur h.next false) := by
+  intro tri
+  induction tri with
+  | nil => intro j P h _ hs; simp [scan] at hs
+  | cons x rest ih =>
+    obtain ⟨d, m, t⟩ := x
+    intro j P h hpos hs hup
+    have hd : 0 < d := hpos (d, m, t) (by simp)
+    simp only [triDims, List.map_cons, torusLinks, Entries.at_cons]
+    simp only [scan] at hs
+    split at hs
+    · split at hs
+      · injection hs with hs; subst hs
+        simp only [if_true]
+        split
+        · rw [nb_up cur P d hd]
+        · rfl
+      · injection hs with hs; subst hs; simp at hup
+    · have hf := scan_facts cur dst rest (j + 1) (P * d) h hs
+      rw [if_neg (by omega)]
+      exact ih (j + 1) (P * d) h (fun x hx => hpos x (by simp [hx])) hs hup
+
+/-- a hop to the LEFT uses `get_downlink_to(node_pos_with_loopback_limiter(next) + j)`: the DOWN half of the link that
+`next` declared towards its neighbour in dimension `j`, which is `cur` -/
+theorem scan_down_link (cur dst pos : Nat) : ∀ (tri : List (Nat × Nat × Nat)) (j P : Nat) (h : Hop),
+    (∀ x ∈ tri, 0 < x.1) → 0 < P → scan cur dst j P tri = some h → h.up = false →
+    Entries.at (torusLinks h.next h.next pos j P (triDims tri)) (pos + h.dim)
+      = some (TLink.cable h.next cur true, TLink.cable h.next cur false) := by
+  intro tri
+  induction tri with
+  | nil => intro j P h _ _ hs; simp [scan] at hs
+  | cons x rest ih =>
+    obtain ⟨d, m, t⟩ := x
+    intro j P h hpos hP hs hup
+    have hd : 0 < d := hpos (d, m, t) (by simp)
+    simp only [triDims, List.map_cons, torusLinks, Entries.at_cons]
+    simp only [scan] at hs
+    split at hs
+    · split at hs
+      · injection hs with hs; subst hs; simp at hup
+      · injection hs with hs; subst hs
+        simp only [if_true]
+        have := nb_down cur P d hP hd
+        simp only at this
+        rw [this]
+    · have hf := scan_facts cur dst rest (j + 1) (P * d) h hs
+      rw [if_neg (by omega)]
+      exact ih (j + 1) (P * d) h (fun x hx => hpos x (by simp [hx])) (Nat.mul_pos hP hd) hs hup
+
+/-- every hop produced by the `while` loop is the result of the `for` scan at its current node -/
+theorem hopsLoop_mem_scan (dst : Nat) (tri : List (Nat × Nat × Nat)) : ∀ (fuel cur : Nat) (hs : List Hop),
+    hopsLoop dst tri fuel cur = some hs → ∀ h ∈ hs, scan h.cur dst 0 1 tri = some h := by
+  intro fuel
+  induction fuel with
+  | zero =>
+    intro cur hs hl h hm
+    by_cases hc : cur = dst
+    · subst hc; rw [hopsLoop_done] at hl; injection hl with hl; subst hl; simp at hm
+    · rw [hopsLoop_zero _ _ _ hc] at hl; cases hl
+  | succ n ih =>
+    intro cur hs hl h hm
+    by_cases hc : cur = dst
+    · subst hc; rw [hopsLoop_done] at hl; injection hl with hl; subst hl; simp at hm
+    · rw [hopsLoop_succ _ _ _ _ hc] at hl
+      cases hsc : scan cur dst 0 1 tri with
+      | none => rw [hsc] at hl; cases hl
+      | some hh =>
+        rw [hsc] at hl
+        simp only at hl
+        cases hrec : hopsLoop dst tri n hh.next with
+        | none => rw [hrec] at hl; cases hl
+        | some tl =>
+          rw [hrec] at hl
+          simp only [Option.map_some] at hl
+          injection hl with hl; subst hl
+          rcases List.mem_cons.mp hm with rfl | hm
+          · rw [(scan_facts cur dst tri 0 1 h hsc).1]; exact hsc
+          · exact ih _ _ hrec h hm
+
+/-- all nodes visited by the closed walk are nodes of the torus -/
+theorem specR_bound : ∀ (tri : List (Nat × Nat × Nat)) (cq dq : Nat), TriOk dq tri → cq < prodTri tri →
+    ∀ h ∈ specR tri cq, h.cur < prodTri tri ∧ h.next < prodTri tri := by
+  intro tri
+  induction tri with
+  | nil => intro cq dq _ _ h hm; simp [specR] at hm
+  | cons x rest ih =>
+    obtain ⟨d, m, t⟩ := x
+    intro cq dq hok hc h hm
+    obtain ⟨hd, ht, hrest⟩ := hok
+    simp only [prodTri] at hc ⊢
+    have htd : t < d := by rw [ht]; exact Nat.mod_lt _ hd
+    have hhi : cq / d < prodTri rest := Nat.div_lt_of_lt_mul hc
+    have key : ∀ r y, r < d → y < prodTri rest → r + d * y < d * prodTri rest := by
+      intro r y hr hy
+      have := Nat.mul_le_mul_left d (show y + 1 ≤ prodTri rest from hy)
+      rw [Nat.mul_add, Nat.mul_one] at this; omega
+    simp only [specR, List.mem_append, List.mem_map] at hm
+    rcases hm with hm | ⟨h', hm', rfl⟩
+    · obtain ⟨x', hx', rfl⟩ := mem_ringWalk d _ _ hd _ _ (Nat.mod_lt _ hd) h hm
+      exact ⟨key _ _ hx' hhi, key _ _ (stepX_lt d _ x' hd hx') hhi⟩
+    · obtain ⟨h1, h2⟩ := ih (cq / d) (dq / d) hrest hhi h' hm'
+      exact ⟨key _ _ htd h1, key _ _ htd h2⟩
+
 end SgVerif.C26
